@@ -39,6 +39,8 @@ type selLogEntry struct {
 	// identification by the server (used by the direct oracle only)
 	kind string   // pl | seg | init | hint | multi | ?
 	view *selView // playlist in hand when the request arrived (pl: the one being returned; nil when exhausted)
+	// pl: the playlist was actually sent (false while the request is held at the gate / unanswered)
+	served bool
 }
 
 type selStreamState struct {
@@ -173,6 +175,7 @@ func (sv *selServer) RoundTrip(req *http.Request) (*http.Response, error) {
 			e.view = st.s.Views[idx]
 		}
 		st.log = append(st.log, e)
+		logIdx := len(st.log) - 1
 		if idx == 1 && len(sv.st) > 1 && !st.passed {
 			st.state = selAtGate
 			sv.reschedule()
@@ -198,7 +201,14 @@ func (sv *selServer) RoundTrip(req *http.Request) (*http.Response, error) {
 			return nil, req.Context().Err()
 		}
 		st.cur = st.s.Views[idx]
+		st.log[logIdx].served = true
 		body := st.cur.render()
+		// Low-Latency stream (decided by its first playlist) receiving an ENDLIST playlist without
+		// preload hint: the stream is over, no further request is to be expected (C11; fix-F28)
+		if f := st.s.Views[0]; idx > 0 && f.SC != "-" && f.SC[1] == '1' && f.Hint != nil && st.cur.End && st.cur.Hint == nil {
+			st.state = selEnded
+			sv.reschedule()
+		}
 		sv.mu.Unlock()
 		return selResponse(req, http.StatusOK, body), nil
 	}
